@@ -155,18 +155,18 @@ func corpus() []caseInput {
 	cs = append(cs, pair("corpus:renumbered-groups-insert-then-replace",
 		gVsys{Rules: []gRule{ru("r1", l("IP_10.1.1.5", "q"), l("any"), l("any")), ru("r2", l("p"), l("any"), l("any"))},
 			Groups: []gGrp{{"p", l("IP_10.1.1.1", "IP_10.1.1.2")}, {"q", l("Z_10.3.0.1", "Z_10.3.0.2", "Z_10.3.0.3", "Z_10.3.0.4", "Z_10.3.0.5")}},
-			Addrs: append(append([]gAddr{}, A...), Z...)},
+			Addrs:  append(append([]gAddr{}, A...), Z...)},
 		gVsys{Rules: []gRule{ru("r1", l("a_m", "IP_10.1.1.5", "c_t"), l("any"), l("any")), ru("r2", l("p"), l("any"), l("any"))},
 			Groups: []gGrp{{"a_m", l("IP_10.1.1.1", "IP_10.1.1.2")}, {"c_t", l("Z_10.3.0.1")}, {"p", l("IP_10.1.1.3")}},
-			Addrs: append(append([]gAddr{}, A...), Z[:1]...)}))
+			Addrs:  append(append([]gAddr{}, A...), Z[:1]...)}))
 	// the same with the claimed variant: p is claimed by r0 before r1 is looked at
 	cs = append(cs, pair("corpus:renumbered-groups-claimed",
 		gVsys{Rules: []gRule{ru("r0", l("p"), l("any"), l("any")), ru("r1", l("IP_10.1.1.5", "q"), l("any"), l("any"))},
 			Groups: []gGrp{{"p", l("IP_10.1.1.1", "IP_10.1.1.2")}, {"q", l("Z_10.3.0.1", "Z_10.3.0.2", "Z_10.3.0.3", "Z_10.3.0.4", "Z_10.3.0.5")}},
-			Addrs: append(append([]gAddr{}, A...), Z...)},
+			Addrs:  append(append([]gAddr{}, A...), Z...)},
 		gVsys{Rules: []gRule{ru("r0", l("a_m"), l("any"), l("any")), ru("r1", l("a_m", "IP_10.1.1.5", "p"), l("any"), l("any"))},
 			Groups: []gGrp{{"a_m", l("IP_10.1.1.1", "IP_10.1.1.2")}, {"p", l("Z_10.3.0.1")}},
-			Addrs: append(append([]gAddr{}, A...), Z[:1]...)}))
+			Addrs:  append(append([]gAddr{}, A...), Z[:1]...)}))
 	// address and address-group share a name space on the device: the target's g0 has another content,
 	// so it is transferred under a generated name, g0-1 — which is the name of an address
 	clash := gAddr{Name: "g0-1", IP: "10.9.9.9/32"}
@@ -199,5 +199,56 @@ func corpus() []caseInput {
 	attr("corpus:from-zone-other", func(d, t *gRule) { d.From = "z3" })
 	attr("corpus:application-absent-on-device", func(d, t *gRule) { d.App = "-" })
 	attr("corpus:log-setting-only-on-device", func(d, t *gRule) { d.LogSetting = "TDC-Panorama" })
+	// raw and IPv6 parts in SEVERAL vsys: every vsys of the target gets the prepended and the <APPEND/>
+	// rules of its own part only; the parts list the vsys in another order than the main file
+	{
+		dn := "localhost.localdomain"
+		mk := func(name string, rules ...gRule) gVsys {
+			return gVsys{Name: name, Rules: rules, Addrs: A[:3], Svcs: S[:1]}
+		}
+		app := func(r gRule) gRule { r.Append = true; return r }
+		r := func(n, a string) gRule { return ru(n, l(a), l("any"), l("tcp 80")) }
+		dev := []gVsys{mk("vsys1", r("r1", "IP_10.1.1.1")), mk("vsys2", r("r1", "IP_10.1.1.2")), mk("vsys3", r("r1", "IP_10.1.1.3"))}
+		for i := range dev {
+			dev[i].Display = "managed by NetSPoC"
+		}
+		spoc := []gVsys{mk("vsys1", r("r1", "IP_10.1.1.1")), mk("vsys2", r("r1", "IP_10.1.1.2")), mk("vsys3", r("r1", "IP_10.1.1.3"))}
+		rawP := []gVsys{mk("vsys3", r("raw-top3", "IP_10.1.1.3")), mk("vsys1", r("raw-top1", "IP_10.1.1.1"), app(r("raw-end1", "IP_10.1.1.2"))),
+			mk("vsys2", app(r("raw-end2", "IP_10.1.1.1")), r("raw-top2", "IP_10.1.1.2"))}
+		v6P := []gVsys{mk("vsys2", r("v6-top2", "IP_10.1.1.3")), mk("vsys1", app(r("v6-end1", "IP_10.1.1.3")), r("v6-top1", "IP_10.1.1.2"))}
+		for i := range rawP {
+			rawP[i].Addrs, rawP[i].Svcs = nil, nil
+		}
+		for i := range v6P {
+			v6P[i].Addrs, v6P[i].Svcs = nil, nil
+		}
+		want := func(useRaw, useV6 bool) []gVsys {
+			e := []gVsys{mk("vsys1", r("r1", "IP_10.1.1.1")), mk("vsys2", r("r1", "IP_10.1.1.2")), mk("vsys3", r("r1", "IP_10.1.1.3"))}
+			if useV6 {
+				e[0].Rules = []gRule{r("v6-top1", "IP_10.1.1.2"), r("r1", "IP_10.1.1.1"), r("v6-end1", "IP_10.1.1.3")}
+				e[1].Rules = []gRule{r("v6-top2", "IP_10.1.1.3"), r("r1", "IP_10.1.1.2")}
+			}
+			if useRaw {
+				e[0].Rules = append(append([]gRule{r("raw-top1", "IP_10.1.1.1")}, e[0].Rules...), r("raw-end1", "IP_10.1.1.2"))
+				e[1].Rules = append(append([]gRule{r("raw-top2", "IP_10.1.1.2")}, e[1].Rules...), r("raw-end2", "IP_10.1.1.1"))
+				e[2].Rules = append([]gRule{r("raw-top3", "IP_10.1.1.3")}, e[2].Rules...)
+			}
+			return e
+		}
+		for _, k := range []struct {
+			mode          string
+			useRaw, useV6 bool
+		}{{"corpus:raw-part-in-three-vsys", true, false}, {"corpus:ipv6-part-in-two-vsys", false, true}, {"corpus:raw-and-ipv6-parts-in-several-vsys", true, true}} {
+			in := caseInput{Dev: configXML(dn, dev, false), Spoc: configXML(dn, spoc, false), Shared: []string{"SHARED_NET", "tcp 81 from shared"}, Mode: k.mode,
+				expectText: configXML(dn, want(k.useRaw, k.useV6), false)}
+			if k.useRaw {
+				in.Raw = configXML("", rawP, false)
+			}
+			if k.useV6 {
+				in.V6 = configXML("", v6P, false)
+			}
+			cs = append(cs, in)
+		}
+	}
 	return cs
 }
